@@ -9,7 +9,7 @@ from __future__ import annotations
 import copy
 import itertools
 
-from .. import tlc, tracecheck
+from .. import core, tlc, tracecheck
 from ..core import Ctx, Machinery, Report, Violation
 
 LEVEL = "model_checking"
@@ -88,7 +88,11 @@ def run(ctx: Ctx) -> Report:
     rep = Report()
     run_mc(ctx, rep)
     lc = law_cases(ctx, masked=True)
-    evs = [record_law(c) for c in lc]
+    evs = []
+    for c in lc:
+        evs.append(record_law(c))
+        if len(evs) % 50 == 0:
+            core.relieve_jit()
     cases = [{"law": [c[0], list(c[1])]} for c in lc]
     v = judge(ctx, rep, "C16", evs, cases, "masked_laws")
     pcs, pcases = [], []
@@ -97,6 +101,7 @@ def run(ctx: Ctx) -> Report:
             seed = ctx.rng.randrange(10 ** 6)
             n = ctx.rng.choice([2, 3, 4])
             new = dl.policy_cases(kind, seed, ctx.pick(4, 12), n)
+            core.relieve_jit()
             pcs += new
             pcases += [{"policy": [kind, seed, ctx.pick(4, 12), n], "index": i} for i in range(len(new))]
     pv = judge(ctx, rep, "C16", pcs, pcases, "policies")
